@@ -181,6 +181,16 @@ def main(argv=None):
             f["_replay"] = res
             if res.get("confirmed"):
                 live.append(f)
+        elif f.get("witness_script"):
+            env = dict(os.environ)
+            env["PYTHONPATH"] = (src or "/repo/src") + os.pathsep + ROOT
+            try:
+                r = subprocess.run([VENV_PY, os.path.join(ROOT, f["witness_script"])], capture_output=True, text=True, timeout=300, env=env, cwd=ROOT)
+                f["_replay"] = {"exit": r.returncode, "out": r.stdout[-500:]}
+                if r.returncode == 1:
+                    live.append(f)
+            except subprocess.TimeoutExpired:
+                pass
         elif f.get("bounded_check"):
             live.append(f)  # decided by the bounded stand-in that owns it
     regions_by_target = {}
@@ -189,6 +199,11 @@ def main(argv=None):
             tgt = f["target"]
             regions_by_target.setdefault(tgt, {}).setdefault(f["obligation"].split("::", 1)[-1], []).append(f["region"])
 
+    os.environ["PYVC_LIVE_FINDINGS"] = ",".join(f["id"] for f in live)
+    if live:
+        # contract modules consult live_finding(): reload so that region exclusions are in place for the obligations counted below too
+        mod, cpath = load_contracts(prop)
+        reg = mod.REG
     jobs = []
     for key, c in reg.contracts.items():
         if c.trusted or c.abstract_only:
@@ -342,7 +357,7 @@ def write_replay(prop, name, ag, cpath, src):
     h = hashlib.sha1((name + json.dumps(ag["model"], sort_keys=True, default=str)).encode()).hexdigest()[:10]
     safe = name.replace("::", "--").replace(":", "-").replace("/", "_").replace("<", "").replace(">", "")
     rp = os.path.join(ROOT, "replays", f"{prop}-{safe}-{h}.json")
-    d = {"property": prop, "obligation": name, "target": ag["target"], "clause": ag["detail"], "kind": ag["kind"], "inputs": ag["model"] or {"args": {}, "ufs": {}},
+    d = {"property": prop, "obligation": name, "target": ag["target"].split("#")[0], "contract_key": ag["target"], "clause": ag["detail"], "kind": ag["kind"], "inputs": ag["model"] or {"args": {}, "ufs": {}},
          "contract_module": cpath, "solver": "z3", "solver_verdict": "sat (negated obligation satisfiable)", "paths": ag["paths"][:5]}
     with open(rp, "w") as fh:
         json.dump(d, fh, indent=1, default=str)
